@@ -42,6 +42,7 @@ Extensions:
 from __future__ import absolute_import, print_function
 from fnmatch import fnmatchcase
 import glob
+import re
 # -- INJECT: Cucumber TagExpression model classes
 from cucumber_tag_expressions.model import Expression, Literal, And, Or, Not, True_
 
@@ -65,7 +66,8 @@ def _Expression_to_string(self, pretty=True):
     text = str(self)
     if pretty:
         # -- REMOVE WHITESPACE: Around parenthensis
-        text = text.replace("( ", "(").replace(" )", ")")
+        # BUT: Keep whitespace after an escaped parenthesis, like: "a\\( or b"
+        text = re.sub(r"(?<!\\)\( ", "(", text).replace(" )", ")")
     return text
 
 
